@@ -1105,3 +1105,45 @@ for _f in ("refuse", "ignore"):
       allowed_panics=r"handle_error|capacity_overflow|alloc|attempt to", functions=["Endpoint::%s" % _f], pre=lambda c: "true", post=disp_post,
       bounds="every attempt: Endpoint::%s disposes of the attempt through clean_up_incoming exactly once (see e2_clean_up_incoming)" % _f,
       replay=("endpoint_dispose_incoming_native", lambda m: [dict(refuse=0), dict(refuse=1)]))
+
+
+# ------------------------------------------------------------------ C06: STREAM frames are checked against, and charged to, the connection-level receive limit
+def _ss(c, n):
+    return "*_1.%d" % c.field("connection/streams/state.rs", "StreamsState", n)
+
+
+def recvd_post(c, p):
+    st = p.p.state
+    calls = st.calls
+    ing = [i for i, x in enumerate(calls) if re.search(r"Recv::ingest$", x[0])]
+    if not ing:
+        return "true"                      # unknown / closed / finished stream or illegal id: nothing is ingested
+    if len(ing) != 1:
+        return "false"
+    i = ing[0]
+    x = calls[i]
+    snap = _Snap(st, x[3])
+    DR, LM = _ss(c, "data_recvd"), _ss(c, "local_max_data")
+    a = x[1]
+    if a[2][0] != "val" or a[3][0] != "val" or a[4][0] != "val":
+        return "false"
+    conj = [eq(a[2][1].t, c.inp("_3", BV64)),                                   # payload_len as given
+            eq(a[3][1].t, c.ex.read_key(snap, DR, BV64).t),                    # bytes received so far on the connection
+            eq(a[4][1].t, c.ex.read_key(snap, LM, BV64).t)]                    # the limit WE advertised (not the peer's)
+    ok = eq(c.ex.read_key(st, x[2] + "#discr", I64).t, bv(0))
+    nxt = next((y for y in calls[i + 1:] if y[3] is not None), None)
+    view = _Snap(st, nxt[3]) if nxt else st
+    after = c.ex.read_key(view, DR, BV64).t
+    new_bytes = c.ex.read_key(st, x[2] + "@Ok.0.0", BV64).t
+    sat = "(ite (bvult (bvadd %s %s) %s) %s (bvadd %s %s))" % (a[3][1].t, new_bytes, a[3][1].t, bv((1 << 64) - 1), a[3][1].t, new_bytes)
+    conj.append(imp(ok, eq(after, sat)))
+    # a violation reported by ingest ends the call with that error
+    conj.append(imp(not_(ok), eq(c.ex.read_key(st, "_0#discr", I64).t, bv(1))))
+    return and_(*conj)
+
+
+Q(name="e2_streams_received_accounting", props=["C06"], func=r"state\.rs:144:1[^>]*>::received$",
+  pure=[r"is_receiving$"], allowed_panics=r"attempt to|unwrap_failed",
+  functions=["StreamsState::received"], pre=lambda c: "true", post=recvd_post,
+  bounds="every stream lookup outcome and every verdict of Recv::ingest (covered by recv_ingest_* obligations): ingest is given the frame's payload length, the connection's data_recvd and OUR advertised local_max_data as they are at that moment; on success data_recvd grows by exactly the new bytes (saturating); on failure the error is returned",
+  replay=("streams_received_accounting_native", lambda m: [dict(over=0), dict(over=1)]))
